@@ -420,13 +420,35 @@ def damage_variants(rng, fl):
     out.append(("garbage+1", blk(cnt, size + 1, z + bytes([rng.randrange(256)])), 1))
     out.append(("garbage+5", blk(cnt, size + 5, z + bytes(rng.randrange(256) for _ in range(5))), 5))
     out.append(("stream-twice", blk(cnt, 2 * size, z + z), None))
+    out = [v + (None,) for v in out]
     if fam(fl["codec"]) == "snappy" and size >= 4:
+        # 4th component: the bytes of the (damaged) block, for the model of the snappy arm (CodecLoop.snappy_decode)
         crc = z[-4:]
-        out.append(("crc-flipped", blk(cnt, size, z[:-4] + bytes([crc[0] ^ 0x10]) + crc[1:]), None))
+        b2 = z[:-4] + bytes([crc[0] ^ 0x10]) + crc[1:]
+        out.append(("crc-flipped", blk(cnt, size, b2), None, b2))
         if crc[::-1] != crc:
-            out.append(("crc-little-endian", blk(cnt, size, z[:-4] + crc[::-1]), None))
-        out.append(("size-3-bytes", blk(cnt, 3, z[:3]), None))
-        out.append(("payload-flipped", blk(cnt, size, bytes([z[0] ^ 0x01]) + z[1:]), None))
+            out.append(("crc-little-endian", blk(cnt, size, z[:-4] + crc[::-1]), None, z[:-4] + crc[::-1]))
+        out.append(("payload-flipped", blk(cnt, size, bytes([z[0] ^ 0x01]) + z[1:]), None, None))
+        # declared sizes shorter than the CRC: the block holds exactly that many bytes / the whole block follows anyway
+        for n in (0, 1, 2, 3):
+            out.append(("size-%d-bytes" % n, blk(cnt, n, z[:n]), None, z[:n]))
+            out.append(("size-%d-then-block" % n, blk(cnt, n, z), None, z[:n]))
+        # the size varint itself corrupted (first byte replaced; what follows is unchanged)
+        sv = zz(size)
+        for b in sorted(set([0x00, 0x02, 0x04, 0x06, 0x01, 0x03, 0x07, 0x7F, 0x80, 0x81, 0x86, 0xFF, rng.randrange(256)]) - {sv[0]}):
+            g = head + zz(cnt) + bytes([b]) + sv[1:] + z + tail
+            try:
+                n2, at = read_zz(g, len(head) + len(zz(cnt)))
+            except IndexError:
+                n2, at = None, None
+            known = g[at:at + n2] if n2 is not None and 0 <= n2 <= len(g) - at else None
+            out.append(("size-byte-%02x" % b, g, None, known))
+        # all of it on the LAST block too (nothing but the sync marker behind it)
+        if len(fl["blocks"]) > 1:
+            lb = fl["blocks"][-1]
+            lhead, lz = f[:lb["start"]], lb["z"]
+            for n in (0, 1, 2, 3):
+                out.append(("last-size-%d-bytes" % n, lhead + zz(lb["count"]) + zz(n) + lz[:n] + cont.SYNC, None, None))
     return out
 
 def run_damaged(rng, tier):
@@ -436,15 +458,21 @@ def run_damaged(rng, tier):
     files, bad = write_files(pls, STREAM_CODECS + ["snappy"])
     violations.extend(bad)
     lines, meta = [], []
+    smodel = []
     caps = [1, 7, 0] if tier == "quick" else CAPS
     modes = ["slice", "(chunks 1)", "(chunks 7)"] if tier == "quick" else MODES
     for fl in files:
         n = len(fl["payload"].expected()) + 4
-        for kind, g, junk in damage_variants(rng, fl):
+        for kind, g, junk, sblock in damage_variants(rng, fl):
             for cap in (caps if fam(fl["codec"]) != "snappy" else [0]):
                 for mode in modes:
                     lines.append("crt %d %s %s any %d" % (cap, C.hx(g), mode, n))
                     meta.append((fl, kind, junk, cap, mode))
+                    if sblock is not None:
+                        # the model of the snappy arm on the bytes of the damaged block: raw codec abstract (= the pair
+                        # (data, compressed) of the block as written), CRC32 = the one the writer stored
+                        z0 = fl["blocks"][0]["z"]
+                        smodel.append((len(lines) - 1, "snappy %s %s %d %s" % (C.hx(fl["payload"].data(0)), C.hx(z0[:-4]), int.from_bytes(z0[-4:], "big"), C.hx(sblock))))
     res = C.run_parallel(C.AVRODRIVE, lines)
     mlines, mmeta = [], []
     dist = {}
@@ -497,9 +525,31 @@ def run_damaged(rng, tier):
     mres = C.run_parallel(C.AVROMODEL, mlines)
     for (b, where, line), mr in zip(mmeta, mres):
         compare_end(b, mr, where, line, diffs, stats)
+    # snappy arm, model vs crate: the model rejects the block <=> the crate reports an error before yielding any value
+    sres = C.run_parallel(C.AVROMODEL, [ml for _, ml in smodel])
+    for (i, ml), mr in zip(smodel, sres):
+        pm = C.parse_sx(mr)
+        pm = pm[0] if pm else ["bad"]
+        fl, kind, junk, cap, mode = meta[i]
+        where = "%s %s %s %s" % (fl["codec"], fl["payload"].name, kind, mode)
+        if pm[0] != "ok":
+            diffs.append({"impl_case": lines[i][:3000], "model_case": ml[:3000], "what": "%s: the snappy model did not run: %s" % (where, mr[:200])})
+            continue
+        model_ok = isinstance(pm[2], list) and pm[2][0] == "ok"
+        t = parse_crt(res[i])
+        if t is None or t.get("open_err") or not t["calls"]:
+            continue            # reported above
+        first = t["calls"][0]["item"]
+        stats["snappy_model_checks"] = stats.get("snappy_model_checks", 0) + 1
+        if model_ok != (first[0] != "err") and not (model_ok and fl["payload"].kind == "nulls"):
+            diffs.append({"impl_case": lines[i][:3000], "model_case": ml[:3000],
+                          "what": "%s: snappy arm: the model %s the block, the crate's first item is %s" % (where, "accepts" if model_ok else "rejects", first[:2])})
+        if not model_ok and first[0] != "err":
+            violations.append({"impl_case": lines[i][:3000], "what": "%s: a snappy block the model rejects (shorter than its CRC / wrong CRC) was not reported as an error" % where, "impl": res[i][:300]})
     notes = {"decode_side_damage": {
         "files": len(files), "reader_runs": len(lines),
-        "damage_kinds": "count lowered / raised, size -1 / -2 / +1, 1 / 5 other bytes behind the stream inside the size, the stream twice (observation), snappy: CRC bit flip, little-endian CRC, size 3, payload bit",
+        "damage_kinds": "count lowered / raised, size -1 / -2 / +1, 1 / 5 other bytes behind the stream inside the size, the stream twice (observation), snappy: CRC bit flip, little-endian CRC, payload bit, declared size 0 / 1 / 2 / 3 (block of that many bytes, or the whole block following; first and last block), first byte of the size varint replaced by 13 values",
+        "snappy_blocks_judged_by_the_model(CodecLoop.snappy_decode)": stats.get("snappy_model_checks", 0),
         "end_of_block_checks_replayed_through_model": stats["end_checks"], "crate_decisions": stats["end_decisions"],
         "checks_the_pre-8463ea9_test_would_decide_differently": stats["before_fix_would_differ"],
         "contract_clauses_validated(blocks meeting the clause)": stats["clause_ok"], "contract_clauses_failed": stats["clause_bad"],
